@@ -8,7 +8,9 @@ import (
 	"encoding/json"
 	"fmt"
 	abci "github.com/cometbft/cometbft/abci/types"
+	"github.com/cosmos/cosmos-sdk/crypto/keys/ed25519"
 	authtypes "github.com/cosmos/cosmos-sdk/x/auth/types"
+	stakingtypes "github.com/cosmos/cosmos-sdk/x/staking/types"
 	"math/rand"
 	"os"
 	"strings"
@@ -365,6 +367,8 @@ func (h *Hist) genTx() *histTx {
 		if err != nil || len(vals) == 0 {
 			return nil
 		}
+		vi := r.Intn(len(vals))
+		vals[0], vals[vi] = vals[vi], vals[0]
 		val := vals[0].OperatorAddress
 		if kind == "stake.delegate" {
 			a := h.amt(1_000_000, 50_000_000_000)
@@ -1021,6 +1025,9 @@ func runHist(t *testing.T, seed int64, n int, out *Out) {
 				wv.DumpDenom = ibcUSDC
 			}
 		}
+		if vr := rand.New(rand.NewSource(hseed ^ 0x7a11)); vr.Intn(3) == 0 || os.Getenv("VERIF_VALIDATORS") != "" {
+			wv.Validators = 1 + vr.Intn(3)
+		}
 		if v := os.Getenv("VERIF_ATOM_PRICE"); v != "" {
 			wv.AtomPrice = v
 		}
@@ -1187,6 +1194,9 @@ type histWorldVariant struct {
 	// ExtRewards: governance has listed ATOM and USDC as supported external reward denoms (every generated history; absent in
 	// histories stored before the switch existed, whose MsgAddExternalIncentive were all refused)
 	ExtRewards bool `json:"extRewards,omitempty"`
+	// Validators: extra staking validators (governors of the consumer chain) created by users with MsgCreateValidator before the
+	// history starts; 0 = only the genesis validator, as in the repository's tests
+	Validators int `json:"validators,omitempty"`
 }
 
 func histWorld(t *testing.T, hseed int64, wv histWorldVariant) (*World, *Std) {
@@ -1216,6 +1226,30 @@ func histWorld(t *testing.T, hseed int64, wv histWorldVariant) (*World, *Std) {
 		w.Seed(func(ctx sdk.Context) {
 			w.Fund(ctx, w.Accts[4].Addr, sdk.NewCoins(sdk.NewCoin(wv.DumpDenom, math.NewIntWithDecimal(1, 30))))
 		})
+	}
+	if wv.Validators > 0 {
+		var reqs []TxReq
+		for i := 0; i < wv.Validators && i < 3; i++ {
+			op := w.Accts[5-i]
+			pk := ed25519.GenPrivKeyFromSecret([]byte(fmt.Sprintf("verif-extra-validator-%d-%d", hseed, i))).PubKey()
+			self := math.NewInt(int64(1_000_000 + 500_000*i)) // at least one unit of voting power each; the voting-power ceiling admits them in this order
+			msg, err := stakingtypes.NewMsgCreateValidator(sdk.ValAddress(op.Addr).String(), pk, sdk.NewCoin("uelys", self),
+				stakingtypes.Description{Moniker: fmt.Sprintf("verif-%d", i)},
+				stakingtypes.NewCommissionRates(D("0.05").Add(D("0.01").MulInt64(int64(i))), D("0.2"), D("0.01")), math.OneInt())
+			if err != nil {
+				t.Fatalf("create validator msg: %v", err)
+			}
+			reqs = append(reqs, TxReq{Signer: op, Msgs: []sdk.Msg{msg}})
+		}
+		res := w.Block(5*time.Second, reqs)
+		if res.Err != nil || res.Panicked {
+			t.Fatalf("validator creation block failed: %v %s", res.Err, res.PanicText)
+		}
+		for i, x := range res.Txs {
+			if x.Code != 0 {
+				t.Logf("extra validator %d refused: %s", i, x.Log)
+			}
+		}
 	}
 	// the burner runs every five minutes (governance-configured epoch; the default genesis names none)
 	w.Seed(func(ctx sdk.Context) {
